@@ -328,6 +328,77 @@ theorem filterToZone_sound {zone : Name} {l : List SecRR} {r : SecRR} (h : r ∈
 example : filterToZone ["test", "zone"] [⟨["test", "zone", "www"], 1, none⟩, ⟨["test", "evilzone"], 1, none⟩,
     ⟨["test", "zone", "a"], 47, some ["test", "zz"]⟩] = [⟨["test", "zone", "www"], 1, none⟩] := by decide
 
+/-! ## NODATA from hashed denial -/
+
+/-- **AD over an NSEC3 NODATA rests on the right Opt-Out bit** (RFC 5155 §9.2).  `secure` (the
+verdict that lets `authority` set AD and mark the denial validated) is given only for an exact-owner
+match without the type — or, without an exact match, when a closest encloser that is no delegation /
+DNAME owner was found, the wildcard at it exists without the type, and the record COVERING THE NEXT
+CLOSER NAME has Opt-Out clear; the flags of the wildcard's and the encloser's records play no part. -/
+theorem nodata3_secure_needs_optout_clear_cover {isDS : Bool} {v : N3View} (h : verifyNODATA3 isDS v = .secure) :
+    (∃ soa ns, v.exact = some (false, soa, ns)) ∨
+    (v.exact = none ∧ isDS = false ∧ v.ceFound = true ∧ v.ceBad = false ∧ v.cover = some false ∧
+      ∃ woo, v.wild = some (false, woo)) := by
+  unfold verifyNODATA3 at h
+  split at h
+  · rename_i ty soa ns hex
+    left
+    cases ty
+    · exact ⟨soa, ns, hex⟩
+    · simp at h
+  · rename_i hex
+    right
+    split at h; · cases h
+    split at h; · cases h
+    rename_i hce hbad
+    split at h
+    · split at h <;> cases h
+    · rename_i hds
+      split at h
+      · cases h
+      · cases h
+      · rename_i oo ty woo hc hw
+        cases ty
+        · cases oo
+          · refine ⟨hex, by simpa using hds, by simpa using hce, by simpa using hbad, hc, woo, hw⟩
+          · simp at h
+        · simp at h
+
+/-- a DS NODATA without an exact match is never `secure`: it is accepted (as insecure) only on an
+Opt-Out cover. -/
+theorem nodata3_ds_optout_only {v : N3View} (hex : v.exact = none) :
+    verifyNODATA3 true v ≠ .secure ∧ (verifyNODATA3 true v = .insecure → v.cover = some true) := by
+  unfold verifyNODATA3
+  rw [hex]
+  constructor
+  · simp only []
+    split; · simp
+    split; · simp
+    simp only [if_true]
+    split <;> simp
+  · simp only []
+    split; · simp
+    split; · simp
+    simp only [if_true]
+    split <;> simp_all
+
+-- the seeded shape: cover has Opt-Out set, the wildcard's own record has it clear → not secure
+example : verifyNODATA3 false { ceFound := true, cover := some true, wild := some (false, false) } = .insecure := by decide
+example : verifyNODATA3 false { ceFound := true, cover := some false, wild := some (false, true) } = .secure := by decide
+
+/-- **A DS question is judged on the parent side of its cut** (e583743): the name handed to
+`provenInsecureDelegation` for a DS question is a PROPER ancestor of the owner (one label up), so the
+insecure delegation of the owner itself can never excuse an unsigned DS answer or denial. -/
+theorem ds_question_judged_above_its_owner (qname : Name) (h : qname ≠ []) :
+    ∃ l, qname = insecureProofName qname true ++ [l] := by
+  unfold insecureProofName
+  have : qname.isEmpty = false := by cases qname <;> simp_all
+  simp only [this, Bool.not_false, Bool.and_true, if_true]
+  exact ⟨qname.getLast h, (List.dropLast_concat_getLast h).symm⟩
+
+example : insecureProofName ["test", "zone", "sub"] true = ["test", "zone"] := by decide
+example : insecureProofName ["test", "zone", "sub"] false = ["test", "zone", "sub"] := by decide
+
 /-! ## candidate signers -/
 
 theorem mem_insertSigner (x a : Name) (l : List Name) : a ∈ insertSigner x l ↔ a = x ∨ a ∈ l := by
@@ -630,6 +701,16 @@ theorem no_anchor_fail_closed (qname : Name) (cands : List Cand) (a b n1 n2 n3 n
     chainWalk sv dm now c [] m links = none := by
   refine ⟨by simp [answerDecision], by simp [authorityDecision], by simp [delegationDecision], ?_⟩
   simp [chainWalk, verifyRootKeys]
+
+/-- **Losing the anchors in mid-history fails every fresh validation**, whatever was cached: below a
+cached secure cut (DS set inherited), below a cached INSECURE cut (empty DS set) and at the root
+alike, `answer` returns `ErrTrustAnchorsUnavailable` — the gate does not depend on `parentDS` or on
+the zone that answered (the seeded change that folded it into `rootParentDS` made it depend on both). -/
+theorem anchor_loss_fails_below_cached_cuts (qname zone : Name) (pds ads : List DS) (cands : List Cand) (probe pi : Bool) :
+    answerAt true false false qname zone pds ads cands probe pi = .fail .anchors := by
+  simp [answerAt]
+
+example : answerAt true false false ["test", "zone", "www"] ["test", "zone"] [] [] [] false true = .fail .anchors := by decide
 
 /-- the gates are in place in the tree under check (regenerated `go/ast` shape facts):
 `hasTrustAnchors` is tested, with an error return, before the first signer lookup of each of the
